@@ -77,7 +77,7 @@ Qed.
 Definition posting_api : list api :=
   [ApiAgentStart; ApiStop; ApiCleanShutdown; ApiPostMsg; ApiOrchDeploy; ApiOrchStartReplication;
    ApiOrchRun; ApiOrchStopAgents; ApiOrchStop; ApiOrchMgtMethod; ApiOrchOnTimeout;
-   ApiOrchProcessEvent].
+   ApiOrchProcessEvent; ApiOrchRead; ApiOrchWaitReady].
 
 Lemma posting_api_runs_no_callback_l : forall f t a calls evs,
   In f posting_api -> exec (mkItem (RApi f) t a calls) = Some evs -> evs = [].
